@@ -108,6 +108,7 @@ package origins
 //@   ensures result2 == nil && peekKind(str) == 0 && !fastParseHost$0(str).AssumeIP ==> result0.Kind == 0 && result0.Value === str[:len(fastParseHost$0(str).Value)]
 //@   ensures result2 == nil && peekKind(str) == 0 && fastParseHost$0(str).AssumeIP ==> (result0.Kind == 1 || result0.Kind == 2) && result0.Value == fastParseHost$0(str).Value
 //@   ensures result2 == nil ==> len(result0.Value) >= 1 && (result0.Kind == 3 ==> len(result0.Value) >= 3) && 0 <= result0.Kind && result0.Kind <= 3
+//@   ensures C13.ip_literal_canonical: result2 == nil && fastParseHost$0(HostOnlyOf(str, peekKind(str))).AssumeIP ==> netip.ParseAddr$1(fastParseHost$0(HostOnlyOf(str, peekKind(str))).Value) == nil && len(netip.ParseAddr$0(fastParseHost$0(HostOnlyOf(str, peekKind(str))).Value).Zone()) == 0 && !netip.ParseAddr$0(fastParseHost$0(HostOnlyOf(str, peekKind(str))).Value).Is4In6() && netip.ParseAddr$0(fastParseHost$0(HostOnlyOf(str, peekKind(str))).Value).String() == fastParseHost$0(HostOnlyOf(str, peekKind(str))).Value
 //@   ensures C13.host_length: result2 == nil ==> len(fastParseHost$0(HostOnlyOf(str, peekKind(str))).Value) <= 254 && (fastParseHost$0(HostOnlyOf(str, peekKind(str))).AssumeIP ==> len(fastParseHost$0(HostOnlyOf(str, peekKind(str))).Value) <= 64)
 
 //@ func ParsePattern
